@@ -75,6 +75,8 @@ for _p in ("C02", "C08", "C09", "C10"):
                  "assumptions": ["values are unmanaged-free with pairwise distinct dict keys (ValOk, WfVal — true of every Python value generated)",
                                  "black leaves hand-written leaf expressions alone and formats generated code AST-preservingly (checked: the rewritten argument is parsed back and compared as a tree)"]}
 PROPS["C02"]["engines"] += [("site", {"quick": 800, "thorough": 20000}), ("align", {"quick": 800, "thorough": 20000})]
+PROPS["C09"]["engines"].append(("site", {"quick": 2400, "thorough": 40000}))
+PROPS["C09"]["rule"] = ASSIGN_RULE + " ; plus (orders mode of the site engine: every permutation of the pending categories one at a time vs all at once) " + SITE_RULE
 PROPS["C11"]["engines"].append(("assign", {"quick": 1000, "thorough": 30000}))
 PROPS["C11"]["rule"] = ALIGN_RULE + " ; plus " + ASSIGN_RULE
 PROPS["C05"]["engines"].append(("assign", {"quick": 800, "thorough": 20000}))
@@ -91,6 +93,22 @@ PROPS["C01"] = {"engines": [("values", {"quick": 450, "thorough": 20000}), ("str
                 "rule": VALUES_RULE + " ; plus " + STR_RULE + " ; plus " + SITE_RULE, "cap_s": {"quick": 80, "thorough": 850},
                 "assumptions": ["class names used by generated code resolve in the test module (classes are defined at module level)",
                                 "the formatter preserves the value of the generated fragment (validated per case by the disabled re-run)"]}
+
+FAULT_RULE = ("seeded generator (harness/engines/faults.py): projects of 1-3 test files with pending creates (some outsourcing data, some formatter-clean), one injected fault per "
+              "case: the n-th call (n = 0..3) of ast.parse / Path.rename / open(...,'bw') / the write after truncation / Path.read_text inside pytest_sessionfinish, black raising, "
+              "format-command exiting non-zero, format-command printing garbage, or none; a fault-free reference run gives the complete new contents; non-trivial = a fault fired")
+PROPS["C15"] = {"engines": [("faults", {"quick": 64, "thorough": 1200})], "rule": FAULT_RULE, "cap_s": {"quick": 85, "thorough": 850},
+                "assumptions": ["rename / unlink / write are atomic per call; open(..., 'bw') = truncate, then write (two steps of the model)",
+                                "each written reference has a unique prefix match in the storage (PrefixUnique)"]}
+PROPS["C16"] = {"engines": [("setsort", {"quick": 3000, "thorough": 60000}), ("values", {"quick": 250, "thorough": 8000})],
+                "rule": "sets of flat values (ints incl. colliding hash buckets, bools, strs, mixed, None) in up to 24 construction orders (harness/engines/setsort.py); plus " + VALUES_RULE,
+                "cap_s": {"quick": 80, "thorough": 850},
+                "assumptions": ["the elements of a generated set are totally ordered by < whenever sorted() succeeds on them (scope of the theorem; frozenset elements are outside it)",
+                                "black / format-command / no formatter only change layout (validated: argument AST compared across the three settings)"]}
+PROPS["C18"] = {"engines": [("site", {"quick": 1200, "thorough": 30000}), ("assign", {"quick": 800, "thorough": 20000}), ("rewrite", {"quick": 500, "thorough": 15000}),
+                            ("values", {"quick": 200, "thorough": 6000})],
+                "rule": SITE_RULE + " ; " + ASSIGN_RULE + " ; " + REWRITE_RULE + " ; " + VALUES_RULE, "cap_s": {"quick": 40, "thorough": 400},
+                "assumptions": ["'internal error' = an exception while collecting or applying changes (in-process) or a traceback from pytest_sessionfinish (real sessions)"]}
 
 ENGINES = {
     "values": "values of the whole supported type universe written by create; disabled re-run as oracle; second/third run; hash seeds and formatter configurations in separate interpreters",
@@ -169,3 +187,13 @@ PROPS["C13"]["level_text"] = ("Model of the storage directory (Model/External.le
 PROPS["C01"]["level_text"] = ("Theorems: value level (Props/C01.lean) create_eq, create_bound, create_in, create_getitem, create_needs_approval — the written value makes the same comparison hold, "
     "for every observation sequence; value -> text: eval_canon (Props/C02), string literals (Props/C12), set order (Props/C16). The formatter enters as the validated assumption. "
     "Correspondence + direct oracle: values of every supported type at any nesting are created by the real code and the rewritten module is re-executed with inline-snapshot disabled.")
+
+PROPS["C15"]["level_text"] = ("Theorems on the write phase as a step list (Props/C15.lean): persist_before_write, crash_content, crash_safe_partial, crash_unsafe_between_truncate_put (counterexample: "
+    "KF-C15-1), crash_no_dangling(_store) (a file with new content implies all its externals were persisted and survive the next session start, under PrefixUnique), "
+    "compute_phase_writes_nothing, formatter_failure_degrades. Correspondence: real sessions with a fault injected at the n-th call of each primitive; file states and persisted set vs crashAt.")
+PROPS["C16"]["level_text"] = ("Theorems (Props/C16.lean): sortSet_perm_invariant_text (the text-sorted fallback never depends on the iteration order), sortSet_perm_invariant_total (value-sorted branch under a "
+    "total order), sortAtoms_perm_invariant, partial_order_depends_on_iteration (counterexample outside the hypothesis). Correspondence: element order of real code_repr vs the model; oracle: "
+    "identical text across construction orders and across PYTHONHASHSEED in separate interpreters; identical argument AST with black / black missing / format-command.")
+PROPS["C18"]["level_text"] = ("Theorems (Props/C18.lean): finish_total_leaf / finish_total_site / finish_total_table (for every reachable site state — any events, any flags, failed clones included — collecting "
+    "the changes yields a result), replacements_disjoint_means_total. Every engine's oracle carries the clause finish_total (no exception while collecting / applying, no traceback in real sessions).")
+PROPS["C06"]["level_text"] += " Props/C06b.lean: disabled_identity, inactive_tests_touch_nothing."
